@@ -701,6 +701,7 @@ type v6Node struct {
 	refs   []hash.SHA256Hash   // probe list
 	phs    []hash.SHA256Hash
 	canc   *v6CancelSub
+	pevents []string
 }
 
 var v6Counter int
@@ -747,6 +748,11 @@ func v6NewNode(base string, subs []v6Sub, keys []*v6Key) *v6Node {
 			}
 			n.mu.Lock()
 			n.ledger[sub.Name] = append(n.ledger[sub.Name], t+":"+v6Short(e.Hash))
+			if e.Type == PayloadEventType {
+				// oracle only (impl.side): the bytes a payload event carries must hash to the transaction's payload hash
+				ph := sha256.Sum256(e.Payload)
+				n.pevents = append(n.pevents, v6Short(e.Hash)+":"+hex.EncodeToString(ph[:4])+":"+v6Short(e.Transaction.PayloadHash()))
+			}
 			n.mu.Unlock()
 			if sub.Outcome == "fatal" {
 				return false, EventFatal{errors.New("verif: fatal")}
@@ -770,7 +776,11 @@ func (n *v6Node) side() string {
 	b, _ := iblt.MarshalBinary()
 	h := sha256.Sum256(b)
 	xor, xclock := n.st.XOR(math.MaxUint32)
-	return fmt.Sprintf("iblt=%s@%d xor=%s@%d", hex.EncodeToString(h[:6]), clock, xor.String()[:12], xclock)
+	n.mu.Lock()
+	pe := strings.Join(n.pevents, ",")
+	n.pevents = nil
+	n.mu.Unlock()
+	return fmt.Sprintf("iblt=%s@%d xor=%s@%d pe=%s", hex.EncodeToString(h[:6]), clock, xor.String()[:12], xclock, pe)
 }
 
 func (n *v6Node) close() {
@@ -1416,6 +1426,7 @@ func (g *v6Gen) history(steps int, schedules bool) {
 	byRef := map[string]v6Tx{}
 	dids := map[string]int{} // did -> key index currently in its document
 	newPid := func() int { g.pid++; return g.pid }
+	var storedPids []int // payloads that are in the payload store (admitted together with their transaction)
 
 	pickPrevs := func() ([]string, int) {
 		if len(dagTxs) == 0 {
@@ -1513,6 +1524,25 @@ func (g *v6Gen) history(steps int, schedules bool) {
 		if len(dagTxs) == 0 {
 			kind = 0
 		}
+		if len(storedPids) > 0 && g.rnd.Intn(12) == 0 {
+			// a valid transaction declaring a payload hash that is ALREADY in the payload store (published by an earlier
+			// transaction): offered with other bytes (must be refused), then with the right bytes / without payload (control)
+			sp, didName := validSpec()
+			if sp.embed < 0 {
+				regDoc(didName, sp.prevs[0], "doc", [][2]any{{sp.kid, sp.signer}})
+			}
+			sp.pid = storedPids[g.rnd.Intn(len(storedPids))]
+			sp.ph = v6Sha(v6Payload(&sp.pid))
+			c := offer(sp, 2, "shared-payload-hash:wrong-bytes")
+			g.emit(v6Op{Op: "add", Call: &c})
+			if g.rnd.Intn(3) > 0 {
+				c2 := offer(sp, g.rnd.Intn(2), "shared-payload-hash:control")
+				if strings.HasPrefix(g.emit(v6Op{Op: "add", Call: &c2}), "r=ok") {
+					admit(sp, c2, "")
+				}
+			}
+			continue
+		}
 		if len(dagTxs) > 0 && g.rnd.Intn(20) == 0 {
 			// the caller's context is cancelled inside the write transaction: nothing may stay behind; the same bytes are then admitted normally
 			sp, didName := validSpec()
@@ -1549,6 +1579,9 @@ func (g *v6Gen) history(steps int, schedules bool) {
 			ok := strings.HasPrefix(g.emit(v6Op{Op: "add", Call: &c}), "r=ok")
 			if ok {
 				admit(sp, c, "")
+				if wp == 1 {
+					storedPids = append(storedPids, sp.pid)
+				}
 			}
 			if ok && sp.embed >= 0 && g.rnd.Intn(2) == 0 {
 				// this transaction creates/updates a DID whose document holds the signer key
